@@ -194,8 +194,8 @@ func (e *Engine) require(st *State, cond *Term, id, kind, where string) bool {
 		return true
 	}
 	neg := Not(cond)
-	want := e.wantTerms(st)
-	v, vals, why := e.solver.Check(st.pc, []*Term{neg}, want)
+	// verdict first (sliced, all back ends); a model is only asked for when it is sat
+	v, _, why := e.solver.Check(st.pc, []*Term{neg}, nil)
 	switch v {
 	case Unsat:
 		return true
@@ -204,6 +204,15 @@ func (e *Engine) require(st *State, cond *Term, id, kind, where string) bool {
 		e.inconclusive(fmt.Sprintf("obligation %s: solver unknown (%s)", id, why))
 		st.assume(cond)
 		return true
+	}
+	want := e.wantTerms(st)
+	v2, vals, why2 := e.solver.Check(st.pc, []*Term{neg}, want)
+	if v2 != Sat {
+		// verdict was sat on the slice but no model of the full path condition could be produced
+		o.Unknown++
+		e.inconclusive(fmt.Sprintf("obligation %s: sat, but no model of the full path condition (%v %s)", id, v2, why2))
+		st.assume(cond)
+		return e.feasible(st)
 	}
 	// sat: a violation, unless it lies entirely inside known-finding regions
 	e.reportViolation(st, o, neg, vals, where, "")
